@@ -970,6 +970,14 @@ fn corpus() -> Vec<Case> {
         c(t(&[("a", "! x", false)]), "a && a\n"),
         c(t(&[("a", "2", false)]), "x a>f\nx a >f\n"),
         c(t(&[("a", "x|", false)]), "a| y\n"),
+        // an alias value that starts with a newline behind an operator that allows a
+        // line break after it (F46: `&&`/`||` used to report a missing command)
+        c(t(&[("a", "\nx 1", false)]), "y && a\n"),
+        c(t(&[("a", "\nx 1", false)]), "y || a\n"),
+        c(t(&[("a", "\n\nx 1", false)]), "y | a\n"),
+        c(t(&[("a", "\nx 1", false)]), "y && a || a\n"),
+        c(t(&[("a", "\nx 1", false), ("b", "a", false)]), "y && b\n"),
+        c(t(&[("a", "\nx 1", false)]), "y; a\ny & a\n"),
         // quoted names are not aliases; assignments and redirections do not end command position
         c(t(&[("a", "x", false)]), "'a' \\a \"a\" a\n"),
         c(t(&[("a", "x", false)]), "v=1 a a; >f a a; v=1 >f a\n"),
